@@ -30,7 +30,7 @@ except ImportError:
     from socketserver import StreamRequestHandler, ThreadingTCPServer
 
 from hl7apy.parser import get_message_type
-from hl7apy.exceptions import HL7apyException, ParserError
+from hl7apy.exceptions import HL7apyException, ParserError, InvalidEncodingChars
 
 
 class UnsupportedMessageType(HL7apyException):
@@ -113,7 +113,7 @@ class MLLPRequestHandler(StreamRequestHandler):
         try:
             try:
                 msg_type = get_message_type(msg)
-            except ParserError:
+            except (ParserError, InvalidEncodingChars):  # no readable MSH: not an HL7 message
                 raise InvalidHL7Message
 
             try:
